@@ -855,7 +855,11 @@ func (ctx *Context) evaluate() {
 				} else {
 					val = stack[e.top-num+index]
 				}
-				outStr += val.ToString()
+				part, ok := ctx.stringifyLimited(&val, false)
+				if !ok {
+					return
+				}
+				outStr += part
 				if !ctx.chargeStringLength(len(outStr)) {
 					return
 				}
